@@ -19,6 +19,30 @@ func init() {
 	u := "(*uint256.Int)."
 	reg := func(n string, m externModel) { externModels[n] = m }
 
+	// go-ethereum common/math: overflow-checked uint64 arithmetic
+	safe := func(name, op, ovf string) {
+		reg("common/math."+name, func(e *Enc, fr *Frame, st *State, a []*Val, _ []types.Type, pos token.Pos) *Val {
+			c := e.C
+			x, y := a[0].T, a[1].T
+			var r, o *smt.Term
+			switch op {
+			case "bvadd":
+				r = c.BVOp("bvadd", x, y)
+				o = c.Cmp("bvult", r, x)
+			case "bvsub":
+				r = c.BVOp("bvsub", x, y)
+				o = c.Cmp("bvugt", y, x)
+			default:
+				wide := c.BVOp("bvmul", c.ZExt(x, 128), c.ZExt(y, 128))
+				r = c.Extract(63, 0, wide)
+				o = c.Ne(c.Extract(127, 64, wide), c.LitU(0, 64))
+			}
+			return &Val{Tup: []*Val{{T: r}, {T: o}}}
+		})
+	}
+	safe("SafeAdd", "bvadd", "")
+	safe("SafeSub", "bvsub", "")
+	safe("SafeMul", "bvmul", "")
 	reg("uint256.NewInt", func(e *Enc, fr *Frame, st *State, a []*Val, _ []types.Type, pos token.Pos) *Val {
 		return &Val{T: e.newU256(st, e.C.ZExt(a[0].T, 256))}
 	})
